@@ -391,3 +391,11 @@ Definition joined_entry (B : list entry) (D : dmap) (p : bytes) : Prop :=
   exists b e t, In b (map fst B) /\ st_path b = p /\ alookup p D = Some e /\
     alookup (st_linkname b) D = Some t /\ de_ino e = de_ino t /\ de_bytes e = de_bytes t /\
     de_stat e = link_stat (de_stat t) b.
+
+(* the new destination as a walker lists it, given that it holds exactly the paths of B
+   (view_equiv): under every path of B the stat and bytes the map holds there *)
+Definition dest_listing (B : list entry) (D : dmap) : list entry :=
+  map (fun e => match alookup (st_path (fst e)) D with
+                | Some x => (set_path (de_stat x) (st_path (fst e)), de_bytes x)
+                | None => e
+                end) B.
